@@ -35,7 +35,7 @@ def run_jobs(jobs: list[dict], workdir: str, log=print) -> list[dict]:
     running = []  # (idx, job, Popen, start, resfile)
     results: dict[int, dict] = {}
     env = dict(os.environ)
-    env["PYTHONPATH"] = HERE
+    env["PYTHONPATH"] = HERE + ((os.pathsep + os.environ["VERIF_REPO"]) if os.environ.get("VERIF_REPO") else "")
     env.setdefault("PYTHONHASHSEED", "0")
     while pending or running:
         while pending and len(running) < NCPU:
@@ -73,6 +73,21 @@ def run_jobs(jobs: list[dict], workdir: str, log=print) -> list[dict]:
             log(f"  job {job['id']}: {r['status']} paths={r.get('n_paths')} "
                 f"cpu={r.get('cpu_s')}s native_ok={r.get('native_validated')} "
                 f"mismatch={r.get('n_native_mismatches')}")
+            if os.environ.get("VERIF_FAILFAST") and r["status"] == "COUNTEREXAMPLE" and any(
+                    p.get("native_unlisted", 0) > 0 for p in r["paths"][-1:]):
+                # development aid (mutant sweeps): stop at the first natively confirmed counterexample
+                for (i2, j2, p2, st2, rf2, lf2) in still + [x for x in running if x[0] != idx and x[0] not in results and x not in still]:
+                    try:
+                        p2.kill(); p2.wait(); lf2.close()
+                    except Exception:
+                        pass
+                    results.setdefault(i2, _dead(j2, "SKIPPED", "fail-fast"))
+                for (i2, j2) in pending:
+                    results[i2] = _dead(j2, "SKIPPED", "fail-fast")
+                pending = []
+                still = []
+                running = []
+                break
         running = still
     return [results[i] for i in range(len(jobs))]
 
@@ -100,7 +115,7 @@ def write_replay(prop: str, res: dict, path_rec: dict) -> str:
 
 def native_replay(fn: str) -> tuple[int, str]:
     env = dict(os.environ)
-    env["PYTHONPATH"] = HERE
+    env["PYTHONPATH"] = HERE + ((os.pathsep + os.environ["VERIF_REPO"]) if os.environ.get("VERIF_REPO") else "")
     p = subprocess.run([PY, "-m", "vcheck.native", "replay", fn], cwd=HERE, env=env,
                        capture_output=True, text=True, timeout=600)
     return p.returncode, p.stdout + p.stderr
@@ -198,7 +213,7 @@ def run_check(prop: str, tier: str, seed: int) -> int:
             inconclusive.append((res, res["status"], core))
         elif res["status"] == "HARNESS_ERROR":
             harness_errors.append(res)
-        elif res["status"] == "SMT_HOLDS":
+        elif res["status"] in ("SMT_HOLDS", "SKIPPED"):
             pass
         elif res["status"] == "SMT_VIOLATION":
             violations.append((res["replay"], res.get("records", []), res))
